@@ -344,7 +344,7 @@ fn gen_raw(rng: &mut Rng) -> String {
 		secs: vec![Sec { name: *b".text\0\0\0", va: sec_va, vs: sec_size as u32, prd: sec_prd, srd: sec_size as u32, chars: 0x6000_0020 }], checksum: 0, magic: if pe64 { 0x20b } else { 0x10b } };
 	spec.opt_size = spec.std_opt_size();
 	let len = sec_prd as usize + sec_size;
-	let img = Image { len, fill: rng.range(1, 999) as u32, hdr: spec.header_bytes(), pokes: vec![(sec_prd as usize, buf)] };
+	let img = Image { len, fill: rng.range(1, 999) as u32, hdr: scrambled_header(&spec, rng), pokes: vec![(sec_prd as usize, buf)] };
 	// the cursor: inside the section, now and then at its last bytes or outside every section
 	let cursor = match rng.below(12) { 0 => sec_va + sec_size as u32 - 1 - rng.below(4) as u32, 1 => sec_va + sec_size as u32 + rng.below(3) as u32, 2 => rng.below(0x1000) as u32, _ => sec_va + lay_off as u32 };
 	format!("exec fmt={} file={} {} soh={} soi={} base={} secs={} text=00 atoms={} cursor={} slots={} expect=any saves=0",
@@ -439,7 +439,7 @@ fn gen(rng: &mut Rng, _i: u64) -> String {
 				expect = "any"; // a flipped constrained byte normally prevents the match; jumps/alternatives may still find one
 				if !text.contains('(') && !text.contains('[') && !text.contains('%') && !text.contains('$') && !text.contains('*') { expect = "nomatch"; }
 			}
-			let img = Image { len, fill: rng.range(1, 999) as u32, hdr: spec.header_bytes(), pokes: vec![(sec_prd as usize + lay_off, poke)] };
+			let img = Image { len, fill: rng.range(1, 999) as u32, hdr: scrambled_header(&spec, rng), pokes: vec![(sec_prd as usize + lay_off, poke)] };
 			let slots = match rng.below(5) { 0 => 0, 1 => 1, 2 => syn.saves.len().saturating_sub(1), _ => syn.saves.len() + rng.below(3) as usize };
 			let mut toks = Vec::new();
 			ast_tokens(&items, &mut toks);
